@@ -17,6 +17,7 @@ mod c13;
 mod c12;
 mod stats;
 mod hashers;
+mod sizes;
 use util::*;
 
 fn main() {
@@ -91,17 +92,19 @@ fn main() {
                 "C18" => { hashers::corr(&mut ctx, "sha"); c18::corr(&mut ctx) }
                 "C14" => c14::corr(&mut ctx),
                 "C20" => c20::corr(&mut ctx),
-                "C02" => { hashers::corr(&mut ctx, "fnv"); hashers::corr(&mut ctx, "sha"); c02::corr(&mut ctx) }
-                "C01" => { hashers::corr(&mut ctx, "fnv"); hashers::corr(&mut ctx, "sha"); c02::corr_opts(&mut ctx, false); stats::pmh_statistics(&mut ctx); }
+                "C02" => { sizes::corr(&mut ctx, "pmh"); c13::corr(&mut ctx); hashers::corr(&mut ctx, "fnv"); hashers::corr(&mut ctx, "sha"); c02::corr(&mut ctx) }
+                "C01" => { sizes::corr(&mut ctx, "pmh"); c13::corr(&mut ctx); hashers::corr(&mut ctx, "fnv"); hashers::corr(&mut ctx, "sha"); c02::corr_opts(&mut ctx, false); stats::pmh_statistics(&mut ctx); }
                 "C04" => {
+                    sizes::corr(&mut ctx, "smh"); sizes::corr(&mut ctx, "ssk"); sizes::corr(&mut ctx, "dens"); c13::corr(&mut ctx);
                     hashers::corr(&mut ctx, "fnv");
                     c04::corr_smh(&mut ctx);
                     ssk::corr_sets(&mut ctx);
                     ssk::corr_sets_nohash(&mut ctx);
                     dens::corr(&mut ctx)
                 }
-                "C03" => { c04::corr_smh(&mut ctx); stats::smh_statistics(&mut ctx); }
+                "C03" => { sizes::corr(&mut ctx, "smh"); c13::corr(&mut ctx); c04::corr_smh(&mut ctx); stats::smh_statistics(&mut ctx); }
                 "C05" => {
+                    sizes::corr(&mut ctx, "smh"); sizes::corr(&mut ctx, "ssk"); c13::corr(&mut ctx);
                     ssk::corr_merge(&mut ctx);
                     c04::corr_smh(&mut ctx)
                 }
@@ -116,18 +119,20 @@ fn main() {
                 }
                 "C07" => {
                     c07::corr_bounds(&mut ctx);
+                    sizes::corr(&mut ctx, "ssk"); c13::corr(&mut ctx);
                     ssk::corr_sets(&mut ctx);
                     ssk::corr_merge(&mut ctx);        // registers of recycled sketchers (reinit / merge histories) feed the collision fraction too
                     stats::ssk_collision_statistics(&mut ctx)
                 }
                 "C06" => {
                     c07::corr_card(&mut ctx);
+                    sizes::corr(&mut ctx, "ssk"); c13::corr(&mut ctx);
                     ssk::corr_sets(&mut ctx);
                     ssk::corr_merge(&mut ctx);
                     stats::ssk_cardinality_statistics(&mut ctx)
                 }
-                "C09" | "DENS" => { hashers::corr(&mut ctx, "murmur"); hashers::corr(&mut ctx, "fnv"); dens::corr(&mut ctx) }
-                "C08" => { hashers::corr(&mut ctx, "murmur"); dens::corr(&mut ctx); dens::selection_oracles(&mut ctx); stats::dens_statistics(&mut ctx); }
+                "C09" | "DENS" => { sizes::corr(&mut ctx, "dens"); c13::corr(&mut ctx); hashers::corr(&mut ctx, "murmur"); hashers::corr(&mut ctx, "fnv"); dens::corr(&mut ctx) }
+                "C08" => { sizes::corr(&mut ctx, "dens"); c13::corr(&mut ctx); hashers::corr(&mut ctx, "murmur"); dens::corr(&mut ctx); dens::selection_oracles(&mut ctx); stats::dens_statistics(&mut ctx); }
                 "C11" | "ORD" => { hashers::corr(&mut ctx, "wy"); hashers::corr(&mut ctx, "fnv"); ord::corr(&mut ctx) }
                 "C10" => { hashers::corr(&mut ctx, "wy"); ord::corr(&mut ctx); ord::omh_statistics(&mut ctx); }
                 "SSK" => {
